@@ -381,3 +381,15 @@ def device_reports_what_was_requested(kind, opt, v):
             assert d.resolve_state() == v, (kind, v, d.resolve_state())
 
     _run(body())
+
+
+# ------------------------------------------------------------------ loop back with a datapoint type configured for the address
+# With a group address -> DPT table the telegram queue decodes the outgoing telegram eagerly and a remote value
+# whose dpt_class is that type takes the decoded value instead of its own from_knx. That this is the same value
+# is C38's lemma (a remote value's own decoder is its datapoint type's decoder - in particular RemoteValueScaling,
+# which scales by its own range, declares none); it is an obligation of this property too.
+
+from contracts import c38_eager_decoding as _c38  # noqa: E402
+from pyvc.api import rely_on  # noqa: E402
+
+rely_on("C39", _c38.own_decoder_is_the_datapoint_types_decoder)
